@@ -7,7 +7,12 @@ HERE = os.path.dirname(os.path.abspath(__file__))
 VERIF = os.path.dirname(HERE)
 SILENT = {"C14_m6_threshold_off_by_one_lookup", "C16_m5_neutral_chunk_64", "C15_m4_neutral_loop_direction", "C12_m5_neutral_k_clause_threshold", "C12_m6_strassen_deep_split_uneven",
           "C10_m3_neutral_add_rewritten_equivalently", "C18_m1_neutral_png_read_row_buffer_exact",
-          "C10_m5_mul_naive_does_not_clear_full_last_word"}  # C10_m5 is dead code: _mzd_mul_naive is only reached for B->ncols < 54, never a multiple of 64  # m6 turned out to be equivalent: Strassen-Winograd is correct for any word-aligned split  # mutants that do NOT break the property: the check must stay silent
+          "C11_r5_revert_top_echelonize_alignment"}
+# C11_r5 reverts fix 57671ea (phase of the lookup tables in mzd_top_echelonize_m4ri).  Since fix f7723d3 the multi-table kernels read their
+# tables with unaligned loads, so either fix alone removes the fault: reverting only the first one no longer breaks C11.
+# C10_m5 (_mzd_mul_naive leaves a full last word of C uncleared) was listed here while the kernel was only reached through mzd_mul_naive / M4RM strips
+# narrower than 54 columns; since the operation mul_naive_t calls the documented kernel directly it breaks C10 and is expected to be caught.
+# m6 turned out to be equivalent: Strassen-Winograd is correct for any word-aligned split  # mutants that do NOT break the property: the check must stay silent
 
 def main():
     a = sys.argv[1:]
